@@ -196,6 +196,11 @@ func runC06(ch *Choices, cfg *RunCfg) (o *Outcome) {
 	o = newOutcome()
 	setMapOrder(ch.Salt("mapsalt"))
 	entry := ch.Intn(nC06Entry, "entry")
+	tmRun, nmRun := ZooTypeMap, ZooNameMap
+	if ch.Intn(4, "maps.javanames") == 1 {
+		tmRun, nmRun, _ = VariantMaps(ch)
+		o.Probes["maps with Java-style list / class names"]++
+	}
 	// ---- the stream ----
 	g := NewGen(ch, CoreDomain())
 	var n int
@@ -246,7 +251,7 @@ func runC06(ch *Choices, cfg *RunCfg) (o *Outcome) {
 				encodable = false
 			}
 		}()
-		enc := hessian.NewEncoder(&expBuf, ZooNameMap)
+		enc := hessian.NewEncoder(&expBuf, nmRun)
 		for i, v := range vals {
 			if err := enc.WriteObject(v); err != nil {
 				o.fail("c06/encode-error", "WriteObject", "value #%d of the stream (%s) is in the supported domain but the encoder rejects it: %v", i, clip(describe(v), 120), err)
@@ -318,11 +323,11 @@ func runC06(ch *Choices, cfg *RunCfg) (o *Outcome) {
 		var ser hessian.Serializer
 		switch entry {
 		case c06EncDec:
-			enc = hessian.NewEncoder(pipe, ZooNameMap)
+			enc = hessian.NewEncoder(pipe, nmRun)
 		case c06EncDecOneShotFirst:
-			enc = hessian.NewEncoder(nil, ZooNameMap)
+			enc = hessian.NewEncoder(nil, nmRun)
 		default:
-			ser = hessian.NewSerializer(ZooTypeMap, ZooNameMap)
+			ser = hessian.NewSerializer(tmRun, nmRun)
 		}
 		for i, v := range vals {
 			if lockstep && i > 0 {
@@ -366,11 +371,11 @@ func runC06(ch *Choices, cfg *RunCfg) (o *Outcome) {
 		var ser hessian.Serializer
 		switch entry {
 		case c06EncDec:
-			dec = hessian.NewDecoder(rd, ZooTypeMap)
+			dec = hessian.NewDecoder(rd, tmRun)
 		case c06EncDecOneShotFirst:
-			dec = hessian.NewDecoder(nil, ZooTypeMap)
+			dec = hessian.NewDecoder(nil, tmRun)
 		default:
-			ser = hessian.NewSerializer(ZooTypeMap, ZooNameMap)
+			ser = hessian.NewSerializer(tmRun, nmRun)
 		}
 		for i := 0; i < n; i++ {
 			pipe.reading = true
